@@ -189,7 +189,27 @@ def main_check(modname, tier, seed, replay_path=None, extra_cov=None):
         groups[v["key"]]["count"] += 1
 
     known = [k for k in load_known() if k.get("property") == pid]
-    open_keys = {k["key"]: k for k in known if k.get("status") == "open"}
+    import re as _re
+
+    open_exact = {k["key"]: k for k in known if k.get("status") == "open" and "key" in k}
+    open_regex = [(_re.compile(k["key_regex"]), k) for k in known if k.get("status") == "open" and "key_regex" in k]
+
+    class _Open:
+        def get(self, key):
+            if key in open_exact:
+                return open_exact[key]
+            for rx, k in open_regex:
+                if rx.fullmatch(key):
+                    return k
+            return None
+
+        def __contains__(self, key):
+            return self.get(key) is not None
+
+        def __getitem__(self, key):
+            return self.get(key)
+
+    open_keys = _Open()
 
     # determinism self-test: replay the first case of every key twice
     nondet = []
